@@ -121,6 +121,10 @@ end_call(size_t idx, int resp)
 {
     g_calls[idx].resp = resp;
     g_calls[idx].returned = true;
+    // returning from a device call is a preemption point too: the caller may
+    // be descheduled between the device's action and its own next statement
+    if (g_hooks.leave)
+        g_hooks.leave(g_calls[idx].call.c_str(), g_calls[idx].inst);
 }
 
 static void
@@ -538,11 +542,13 @@ inst_of_storage(const struct Storage* s)
 }
 
 std::string
-check_protocol(bool require_close, std::string* suffix)
+check_protocol(bool require_close, std::string* suffix,
+               const char* ignore_suffix)
 {
-    if (!g_violations.empty()) {
-        const std::string& v = g_violations[0];
+    for (const std::string& v : g_violations) {
         size_t bar = v.find('|');
+        if (ignore_suffix && v.substr(0, bar) == ignore_suffix)
+            continue;
         *suffix = v.substr(0, bar);
         return v.substr(bar + 1);
     }
